@@ -129,19 +129,19 @@ Print Assumptions C10_fault_answer_sibling.
     [c10_ok]: addressed to the source, delivered to the source host over the reverse
     interface sequence (or handed over directly by a router of the source AS). *)
 Theorem C10_oracle_holds_on_model :
-  forall mac t hosts now now' p pp fia frt cf tc flow next qoff ka kc how srt raw r pt,
+  forall mac t hosts now now' p pp fia frt cf tc flow next qnext qoff ka kc how srt raw r pt,
   let macq := macq_of mac in
   let fa := Some (fia, (frt, cf)) in
   good mac t p -> endpoints_ok t p pp = true ->
   all_unexpired now p = true -> all_unexpired now' p = true -> ScmpReturn.src_ip_ok pp = true ->
   ScmpReturn.pos_ok t p ka how = true -> (kc < nhops p)%nat -> ScmpReturn.no_revisit p kc = true ->
   ScmpReturn.clean_fault t p ScmpReturn.PNone fa ka kc how = true ->
-  let m := ScmpReturn.model_q macq t hosts now now' p pp ScmpReturn.PNone fa tc flow next qoff srt raw in
+  let m := ScmpReturn.model_q macq t hosts now now' p pp ScmpReturn.PNone fa tc flow next qnext qoff srt raw in
   (exists res, ScmpReturn.m_stop m =
                Some (ScmpReturn.pos_loc t p ka how, ScmpReturn.pos_pkt p pp ka how, res)) ->
   ScmpReturn.m_reply m = RouterScmp.SReply r ->
-  ScmpReturn.reply_port (RouterScmp.r_l4 r) next qoff = Some pt ->
-  ScmpReturn.c10_ok t p pp ScmpReturn.PNone ka kc how None next qoff (ScmpReturn.pos_loc t p ka how)
+  ScmpReturn.reply_port (RouterScmp.r_l4 r) qnext qoff = Some pt ->
+  ScmpReturn.c10_ok t p pp ScmpReturn.PNone ka kc how None qnext qoff (ScmpReturn.pos_loc t p ka how)
                     (ScmpReturn.m_reply m) (ScmpReturn.m_back m) = true.
 Proof. intros. eapply oracle_fault; eassumption. Qed.
 Print Assumptions C10_oracle_holds_on_model.
@@ -286,7 +286,7 @@ Definition ex_macq := macq_of toy.
     host 10.0.0.1, port 4242; all hypotheses of the oracle theorem hold. *)
 Example C10_example :
   let fa := Some (10, (1, ScmpReturn.CDown 2)) in
-  let m := ScmpReturn.model_q ex_macq ex_topo ex_hosts ex_now ex_now ex_prov ex_pp ScmpReturn.PNone fa 0 0 17 92 0 ex_raw in
+  let m := ScmpReturn.model_q ex_macq ex_topo ex_hosts ex_now ex_now ex_prov ex_pp ScmpReturn.PNone fa 0 0 17 17 92 0 ex_raw in
   valid_b ex_macq ex_topo ex_now ex_prov ex_pp = true /\
   ScmpReturn.pos_ok ex_topo ex_prov 2 ScmpReturn.ASib = true /\
   ScmpReturn.clean_fault ex_topo ex_prov ScmpReturn.PNone fa 2 2 ScmpReturn.ASib = true /\
@@ -317,8 +317,8 @@ Proof. vm_compute. repeat split; reflexivity. Qed.
     20/r0 rejects the answer (InvalidHopFieldMAC): the source host never learns that
     its path expired. *)
 Theorem C10_expired_hop_refuted :
-  exists macq t hosts now p pp pf tc flow next qoff srt raw,
-    let m := ScmpReturn.model_q macq t hosts now now p pp pf None tc flow next qoff srt raw in
+  exists macq t hosts now p pp pf tc flow next qnext qoff srt raw,
+    let m := ScmpReturn.model_q macq t hosts now now p pp pf None tc flow next qnext qoff srt raw in
     valid_b macq t now p pp = true /\ ScmpReturn.hop_fault pf = true /\
     ScmpReturn.known_early now p pf = true /\
     snd (ScmpReturn.m_fwd m) = Stopped 10 0 (KScmp 4 52) /\
@@ -326,10 +326,10 @@ Theorem C10_expired_hop_refuted :
     | ScmpReturn.BWalk w => snd w = Stopped 20 0 (KScmp 4 51)
     | _ => False
     end /\
-    ScmpReturn.c10_ok t p pp pf 1 1 ScmpReturn.AExt None next qoff (mkLoc 10 0 (InExt 1))
+    ScmpReturn.c10_ok t p pp pf 1 1 ScmpReturn.AExt None qnext qoff (mkLoc 10 0 (InExt 1))
                       (ScmpReturn.m_reply m) (ScmpReturn.m_back m) = false.
 Proof.
-  exists ex_macq, ex_topo, ex_hosts, ex_now, ex_prov, ex_pp, (ScmpReturn.PHop FHopExp 1 0), 0, 0, 17, 92%nat, 0, ex_raw.
+  exists ex_macq, ex_topo, ex_hosts, ex_now, ex_prov, ex_pp, (ScmpReturn.PHop FHopExp 1 0), 0, 0, 17, 17, 92%nat, 0, ex_raw.
   vm_compute. repeat split; reflexivity.
 Qed.
 Print Assumptions C10_expired_hop_refuted.
@@ -342,7 +342,7 @@ Print Assumptions C10_expired_hop_refuted.
     statement about [model_q]; for altered hop fields the oracle is evaluated on every
     generated case by the correspondence check only. *)
 Definition C10_oracle_statement : Prop :=
-  forall mac t hosts now now' p pp pf fa tc flow next qoff ka kc how trq srt raw r pt,
+  forall mac t hosts now now' p pp pf fa tc flow next qnext qoff ka kc how trq srt raw r pt,
   let macq := macq_of mac in
   good mac t p -> endpoints_ok t p pp = true ->
   all_unexpired now p = true -> all_unexpired now' p = true -> ScmpReturn.src_ip_ok pp = true ->
@@ -351,11 +351,11 @@ Definition C10_oracle_statement : Prop :=
     else ScmpReturn.clean_fault t p pf fa ka kc how)
    || ScmpReturn.hop_fault pf) = true ->
   ScmpReturn.known_early now p pf = false ->
-  let m := ScmpReturn.model_q macq t hosts now now' p pp pf fa tc flow next qoff srt raw in
+  let m := ScmpReturn.model_q macq t hosts now now' p pp pf fa tc flow next qnext qoff srt raw in
   (exists res, ScmpReturn.m_stop m =
                Some (ScmpReturn.pos_loc t p ka how,
                      ScmpReturn.apply_pfault pf (ScmpReturn.pos_pkt p pp ka how), res)) ->
   ScmpReturn.m_reply m = RouterScmp.SReply r ->
-  ScmpReturn.reply_port (RouterScmp.r_l4 r) next qoff = Some pt ->
-  ScmpReturn.c10_ok t p pp pf ka kc how trq next qoff (ScmpReturn.pos_loc t p ka how)
+  ScmpReturn.reply_port (RouterScmp.r_l4 r) qnext qoff = Some pt ->
+  ScmpReturn.c10_ok t p pp pf ka kc how trq qnext qoff (ScmpReturn.pos_loc t p ka how)
                     (ScmpReturn.m_reply m) (ScmpReturn.m_back m) = true.
